@@ -307,6 +307,8 @@ func runC09(c *core.Ctx) {
 	importObligations(c, runC01, "R2", func(o *core.Obligation) bool {
 		return (o.Rule == "R2" && strings.Contains(o.Key, "single-send")) || o.Rule == "R5"
 	})
-	importObligations(c, runC01, "R5", func(o *core.Obligation) bool { return strings.Contains(o.Key, "sender-owns-flag") || strings.Contains(o.Key, "start-site") })
+	importObligations(c, runC01, "R5", func(o *core.Obligation) bool {
+		return strings.Contains(o.Key, "sender-owns-flag") || strings.Contains(o.Key, "start-site")
+	})
 	importObligations(c, runC02, "R5", func(o *core.Obligation) bool { return strings.Contains(o.Key, "flag-access/") })
 }
